@@ -634,7 +634,7 @@ private:
 		}
 
 		bool sign = rhs < 0 ? true : false;
-		uint32_t v = sign ? -rhs : rhs; // project to positive side of the projective reals
+		uint32_t v = static_cast<uint32_t>(sign ? (0ull - static_cast<uint64_t>(rhs)) : static_cast<uint64_t>(rhs)); // project to positive side of the projective reals
 		int32_t raw = 0;          // we can use signed integer representation as we are taking care of the sign bit
 		if (v == sign_mask) { // +-maxpos, 0x8000'0000 is special in int32 arithmetic as it is its own negation
 			raw = 0x7FB00000;     // -2147483648  0x7FB0'0000; 
